@@ -53,6 +53,12 @@ func entryAt(e *core.Entry, path string) *core.Entry {
 // equalScans is the property's predicate: the accelerated result against the
 // cold one.
 func equalScans(warm, cold *scanx.Result) string {
+	if warm.Panic != "" {
+		return "class=panic accelerated scan: " + warm.Panic
+	}
+	if cold.Panic != "" {
+		return "class=panic cold scan: " + cold.Panic
+	}
 	if !cold.OK() {
 		if warm.OK() {
 			return "class=accelerated-succeeds-cold-fails"
@@ -138,7 +144,7 @@ func main() {
 		}
 
 		n := c.Size(450, 20000)
-		for i := 0; i < n; i++ {
+		for i := 0; i < n && !scanx.Hung; i++ {
 			r := c.R
 			cfg := &scanx.Cfg{SymlinkMode: slModes[i%3], PermsMode: pmModes[(i/3)%2]}
 			px, du := (i/6)%2 == 0, (i/12)%4 == 3
@@ -248,7 +254,7 @@ func main() {
 				warm := scanx.Scan(root, cfg, step.Px, step.Du, scanx.PrevFor(step, last))
 				cold := scanx.Scan(root, cfg, step.Px, step.Du, nil)
 				verdict := equalScans(warm, cold)
-				if honest && baseOK && oracle == "" && verdict != "" {
+				if (honest && baseOK || strings.HasPrefix(verdict, "class=panic")) && oracle == "" && verdict != "" {
 					oracle = fmt.Sprintf("%s (round %d)", verdict, k+1)
 				}
 				if honest && baseOK {
